@@ -45,6 +45,7 @@ ItemsSchema == {
   It("def", "object", "Mutation", <<>>, <<>>, <<"f">>),
   It("def", "object", "Q", <<>>, <<>>, <<"f">>),
   It("def", "schema", "", <<>>, <<>>, <<<<"query", "Q">>>>),
+  It("def", "schema", "", <<>>, <<>>, <<<<"query", "Query">>>>),          \* could be left implicit — unless an extension adds to it
   It("def", "schema", "", <<"d">>, <<>>, <<<<"query", "Query">>, <<"mutation", "Mutation">>>>),
   It("ext", "schema", "", <<"d">>, <<>>, <<>>),
   It("ext", "schema", "", <<>>, <<>>, <<<<"mutation", "Mutation">>>>),
